@@ -430,12 +430,41 @@ impl Property for C20 {
                 Some(Err(_)) => errors += 1,
             }
         }
-        // readdir order is real: make the event log independent of it
-        yielded.sort();
-        for y in &yielded {
-            ctx.event_s("yield", &y.0);
+        // installer steps scheduled after the iterator finished still happen, so
+        // that the final tree does not depend on how many next() calls there were
+        while si < sc.installer.len() {
+            let st = &sc.installer[si];
+            si += 1;
+            if st.pkg >= sc.pkgs.len() || st.file >= NFILES {
+                continue;
+            }
+            let dir = dbpath.join(OsString::from_vec(sc.pkgs[st.pkg].name.clone()));
+            let f = dir.join(FILE_NAMES[st.file]);
+            if st.add {
+                std::fs::write(&f, sc.pkgs[st.pkg].contents[st.file].as_bytes())
+                    .unwrap_or_else(|e| panic!("SIM-HARNESS: write: {}", e));
+                exists[st.pkg][st.file] = true;
+            } else {
+                let _ = std::fs::remove_file(&f);
+                exists[st.pkg][st.file] = false;
+            }
+            ctx.step("installer", st.pkg as u64, (st.file as u64) << 1 | st.add as u64);
+            ctx.fault("installer_after_iteration");
         }
-        ctx.step("iterated", yielded.len() as u64, errors as u64);
+        // readdir order is real and not owned by the simulator: the event log
+        // holds only what cannot depend on it (yields of packages whose
+        // mandatory files the installer never touches, sorted by name)
+        yielded.sort();
+        let mut stable_yields = 0u64;
+        for y in &yielded {
+            let idx = sc.pkgs.iter().position(|p| p.name == y.0.as_bytes());
+            if idx.map_or(true, |i| !unstable[i]) {
+                ctx.event_s("yield", &y.0);
+                stable_yields += 1;
+            }
+        }
+        let _ = errors;
+        ctx.step("iterated", stable_yields, 0);
         if !sc.installer.is_empty() || sc.pkgs.iter().any(|p| p.crash_at < NFILES) || !sc.strays.is_empty() {
             ctx.nontrivial = true;
         }
@@ -532,15 +561,18 @@ impl Property for C20 {
             Err(e) => fail!("open-failed", "second open failed: {}", e),
         };
         let mut n2 = 0;
+        let mut second: Vec<pkgsrc::pkgdb::Package> = Vec::new();
         for item in db2 {
             n2 += 1;
             if n2 > budget {
                 fail!("liveness-iterator", "second iteration does not finish");
             }
-            let pkg = match item {
-                Ok(p) => p,
-                Err(_) => continue,
-            };
+            if let Ok(p) = item {
+                second.push(p);
+            }
+        }
+        second.sort_by(|a, b| a.pkgname().cmp(b.pkgname()));
+        for pkg in second {
             let pi = match sc.pkgs.iter().position(|p| p.name == pkg.pkgname().as_bytes()) {
                 Some(i) => i,
                 None => continue,
